@@ -150,6 +150,8 @@ var h08Sets = [][]string{
 	{"a", "/k"},
 	{".fullname", "/k", "b"},
 	{".config", ".name", "/gomaxprocs"},
+	{"/gomaxprocs", "a"},
+	{".fullname", "/gomaxprocs"},
 }
 
 func h08Perm(n, idx int) []int {
